@@ -272,6 +272,13 @@ func (w *mtWorkload) Next(block int) []rig.Tx {
 				// that, the id the next new token receives must be fresh.
 				seq := r.K.MT.GetMTSequence(r.Ctx()) + uint64(rng.Intn(3))
 				future := fmt.Sprintf("%x", sha256.Sum256([]byte(fmt.Sprintf("mt-%d", seq))))
+				// ... and somebody mints a new token into the class that does not exist yet under the id the generator hands
+				// out to the next class (sha256("mt-denom-<sequence>"))
+				futureClass := fmt.Sprintf("%x", sha256.Sum256([]byte(fmt.Sprintf("mt-denom-%d", r.K.MT.GetDenomSequence(r.Ctx())+uint64(rng.Intn(2))))))
+				if w.model[futureClass] == nil {
+					w.run.Count("future-class-id-minted-into-before-it-is-issued", 1)
+					out = append(out, r.Mk(a, &mtTag{Op: "mint-future-class"}, &mttypes.MsgMintMT{DenomId: futureClass, Amount: 2, Sender: a.Addr.String(), Recipient: a.Addr.String()}))
+				}
 				if own := w.find(c.Owner); own != nil && c.Toks[future] == nil {
 					w.run.Count("future-token-id-addressed-before-it-is-generated", 1)
 					out = append(out, r.Mk(own, &mtTag{Op: "edit-future-id"}, &mttypes.MsgEditMT{Id: future, DenomId: cid, Data: []byte("squat"), Sender: own.Addr.String()}),
